@@ -42,3 +42,8 @@ Qed.
 
 Lemma curated_nonempty : curated <> [] /\ translator_ok = true.
 Proof. split; [discriminate | reflexivity]. Qed.
+
+(* the property speaks of 88 elements: none may drop out of the table (an element
+   whose function stops calling vectorise would otherwise escape the sweep) *)
+Lemma curated_size : (88 <= length curated)%nat.
+Proof. apply Nat.leb_le. vm_compute. reflexivity. Qed.
